@@ -374,7 +374,20 @@ impl<'tcx> Cx<'tcx> {
             let items: Vec<J> = tcx
                 .associated_items(did)
                 .in_definition_order()
-                .map(|it| obj! {"name": J::s(it.name().as_str()), "kind": J::s(format!("{:?}", it.kind).split(' ').next().unwrap_or("").to_string())})
+                .map(|it| {
+                    let kind = format!("{:?}", it.kind);
+                    let kind = kind.split(|c: char| !c.is_alphanumeric()).next().unwrap_or("").to_string();
+                    let bounds: Vec<J> = if matches!(it.kind, ty::AssocKind::Type { .. }) {
+                        tcx.explicit_item_bounds(it.def_id)
+                            .skip_binder()
+                            .iter()
+                            .map(|(c, _)| J::s(format!("{}", c)))
+                            .collect()
+                    } else {
+                        vec![]
+                    };
+                    obj! {"name": J::s(it.name().as_str()), "kind": J::s(kind), "bounds": J::Arr(bounds)}
+                })
                 .collect();
             out.push(obj! {
                 "path": J::s(self.dp(did)),
